@@ -116,4 +116,4 @@ class Asap7Walker(h.HierarchyWalker):
 
 def compile(src: h.Elaboratables) -> None:
     """Compile `src` to the ASAP7 technology"""
-    Asap7Walker.walk(src)
+    return Asap7Walker.walk(src)
